@@ -286,7 +286,7 @@ func c08Rows() []c08Row {
 		{"CCFB.metrics<=16384", true, func(t *rapid.T, s string) m.Packet {
 			p := m.Packet{Kind: m.KCCFB, CCFB: &m.CCFB{Sender: gen.U32(t, "sender"), Timestamp: gen.U32(t, "ts")}}
 			n := pick(s, 16383, 16384, 16385, farOf(20000, 32768, 65537, 65538))
-			b := m.CCFBBlock{SSRC: gen.U32(t, "ssrc"), BeginSeq: uint16(rapid.IntRange(0, 65535-n-1).Draw(t, "begin")), Metrics: make([]m.CCFBMetric, n)}
+			b := m.CCFBBlock{SSRC: gen.U32(t, "ssrc"), BeginSeq: uint16(rapid.IntRange(0, max(0, 65535-n-1)).Draw(t, "begin")), Metrics: make([]m.CCFBMetric, n)}
 			for i := range b.Metrics {
 				if i%3 != 0 {
 					b.Metrics[i] = m.CCFBMetric{Received: true, ECN: uint8(i & 3), ATO: uint16(i & 0x1FFF)}
